@@ -260,9 +260,24 @@ func (in *Interp) concretize(t *Term, lo, hi int64, signedT bool) (int64, bool) 
 
 var modelZero = map[string]func(in *Interp) Value{}
 
+// modeZero: zero values that depend on the model mode (e.g. field-mode scalars)
+var modeZero = map[string]map[string]func(in *Interp) Value{}
+
+func typesPtr(t types.Type) types.Type { return types.NewPointer(t) }
+
 func (in *Interp) zero(t types.Type) Value {
 	if n, ok := t.(*types.Named); ok {
-		if f, ok := modelZero[typeKey(n)]; ok {
+		k := typeKey(n)
+		if in.cfg.Mode != "" {
+			for _, m := range strings.Split(in.cfg.Mode, ",") {
+				if mz, ok := modeZero[m]; ok {
+					if f, ok := mz[k]; ok {
+						return f(in)
+					}
+				}
+			}
+		}
+		if f, ok := modelZero[k]; ok {
 			return f(in)
 		}
 	}
